@@ -18,20 +18,33 @@ type Case struct {
 	PkgName    string
 	Fmt        string // "", gofmt, goimports, noop
 	CwdRoot    bool   // run from the module root with ./SrcDir instead of from the source directory
+	FlagSpelling int  // 0: -flag when on; 1: every boolean flag given explicitly (-stub=false -with-resets=T ...); 2: --flag
 }
 
 // Args renders the moq argument vector (without -out).
 func (c *Case) Args() []string {
 	var a []string
-	if c.Stub {
-		a = append(a, "-stub")
+	flag := func(name string, on bool, yes, no string) {
+		switch c.FlagSpelling {
+		case 1:
+			if on {
+				a = append(a, "-"+name+"="+yes)
+			} else {
+				a = append(a, "-"+name+"="+no)
+			}
+		case 2:
+			if on {
+				a = append(a, "--"+name)
+			}
+		default:
+			if on {
+				a = append(a, "-"+name)
+			}
+		}
 	}
-	if c.SkipEnsure {
-		a = append(a, "-skip-ensure")
-	}
-	if c.WithResets {
-		a = append(a, "-with-resets")
-	}
+	flag("stub", c.Stub, "true", "false")
+	flag("skip-ensure", c.SkipEnsure, "1", "0")
+	flag("with-resets", c.WithResets, "T", "F")
 	if c.PkgName != "" {
 		a = append(a, "-pkg", c.PkgName)
 	}
@@ -120,6 +133,12 @@ func Cases(t *Tree, rng *rand.Rand, o CaseOpts) []*Case {
 			c.Fmt = "gofmt"
 		}
 		c.CwdRoot = rng.Intn(3) == 0
+		switch len(out) % 5 {
+		case 3:
+			c.FlagSpelling = 1
+		case 4:
+			c.FlagSpelling = 2
+		}
 		exportable := true
 		for _, i := range ifs {
 			if !i.Exportable {
